@@ -402,6 +402,108 @@ def manual_impls():
 
 
 # ---------------------------------------------------------------- emit
+# ---- attribute tables: which attribute names each attribute-list parser matches and how it treats the value;
+# which attribute names each Display impl writes and whether the value is quoted
+ATTR_SITES = [
+    ("ExtXMedia", "tags/master_playlist/media.rs"),
+    ("ExtXSessionData", "tags/master_playlist/session_data.rs"),
+    ("DecryptionKey", "types/decryption_key.rs"),
+    ("StreamData", "types/stream_data.rs"),
+    ("VariantStream", "tags/master_playlist/variant_stream.rs"),
+    ("ExtXStart", "tags/shared/start.rs"),
+    ("ExtXMap", "tags/media_segment/map.rs"),
+    ("ExtXDateRange", "tags/media_segment/date_range.rs"),
+]
+VOCAB = ["unquote", "parse_yes_or_no", "parse", "try_from", "try_into", "trim", "from_secs_f64", "try_from_secs_f64"]
+
+def matching_any(text, i, o="{", c="}"):
+    d = 0
+    for j in range(i, len(text)):
+        if text[j] == o: d += 1
+        elif text[j] == c:
+            d -= 1
+            if d == 0: return j
+    raise TranslatorError("unbalanced")
+
+def parser_arms(text):
+    """arms of the LAST `for (key, value) in AttributePairs::new(..) { match key {` block (VariantStream has its
+    loop in the stream-inf branch)"""
+    out = []
+    for m in re.finditer(r"for \(key, value\) in AttributePairs::new\([^)]*\)\s*\{", text):
+        b = m.end() - 1
+        e = matching_any(text, b)
+        body = text[b + 1:e]
+        mm = re.search(r"match key\s*\{", body)
+        if not mm:
+            raise TranslatorError("no match key")
+        mb = mm.end() - 1
+        me = matching_any(body, mb)
+        arms_text = body[mb + 1:me]
+        arms = list(re.finditer(r'(?m)^\s*("(?:[^"\\]|\\.)*"(?:\s*\|\s*"(?:[^"\\]|\\.)*")*|_(?:\s+if\s+[^=]+?)?)\s*=>\s*', arms_text))
+        res = []
+        for k, am in enumerate(arms):
+            nxt = arms[k + 1].start() if k + 1 < len(arms) else len(arms_text)
+            abody = re.sub(r"//[^\n]*", "", arms_text[am.end():nxt])
+            toks = [v for v in VOCAB if re.search(r"\b" + v + r"\b", abody)]
+            tys = re.findall(r"parse::<\s*([A-Za-z0-9_]+)", abody) + re.findall(r"\b([A-Z][A-Za-z0-9]+)::try_from\(", abody)
+            res.append((am.group(1).strip(), "+".join(toks + tys) or "store", "?" in abody))
+        out.append(res)
+    return out
+
+def display_attrs(text, ty):
+    m = re.search(r"impl(?:<[^>]*>)?\s+fmt::Display\s+for\s+" + ty + r"\b[^{]*\{", text)
+    if not m:
+        return None
+    b = m.end() - 1
+    e = matching_any(text, b)
+    body = text[b:e]
+    res = []
+    for wm in re.finditer(r'write!\(\s*f\s*,\s*"((?:[^"\\]|\\.)*)"\s*(?:,\s*([^;]*?))?\)\?', body, re.S):
+        fmt, args = wm.group(1), wm.group(2) or ""
+        # split args at top-level commas
+        parts, d, cur = [], 0, ""
+        for ch in args:
+            if ch in "([{": d += 1
+            elif ch in ")]}": d -= 1
+            if ch == "," and d == 0:
+                parts.append(cur.strip()); cur = ""
+            else:
+                cur += ch
+        if cur.strip(): parts.append(cur.strip())
+        ph = 0
+        for tm in re.finditer(r"\{[^}]*\}|([A-Z][A-Z0-9-]*)=(\{[^}]*\}|[A-Z]+)", fmt):
+            if tm.group(1) is None:
+                ph += 1; continue
+            name, val = tm.group(1), tm.group(2)
+            if val.startswith("{"):
+                arg = parts[ph] if ph < len(parts) else ""
+                ph += 1
+                kind = "quote" if "quote(" in arg else "plain"
+            else:
+                kind = "lit:" + val
+            if not res or res[-1] != (name, kind):
+                res.append((name, kind))
+    return res
+
+
+def attr_tables():
+    P, D = [], []
+    for ty, rel in ATTR_SITES:
+        t = strip_tests(read(rel))
+        arms = parser_arms(t)
+        if not arms:
+            raise TranslatorError("no attribute loop in " + rel)
+        rows = [(a.strip('"') if a.startswith('"') else a, b, c) for a, b, c in arms[-1]]
+        # the arms match distinct literals, so their order is irrelevant: sorted, catch-all last
+        rows.sort(key=lambda r: (r[0].startswith('_'), r[0]))
+        P.append((ty, rows))
+        d = display_attrs(t, ty)
+        if d is None:
+            raise TranslatorError("no Display impl for " + ty)
+        D.append((ty, d))
+    return P, D
+
+
 def generate():
     pf = prefixes()
     disp = dispatch()
@@ -430,6 +532,12 @@ def generate():
     except TranslatorError as e:
         failed["derives"] = str(e)
         derives, manual = {}, []
+
+    try:
+        attrP, attrD = attr_tables()
+    except (TranslatorError, ValueError, IndexError) as e:
+        failed["attrs"] = str(e)
+        attrP, attrD = [], []
 
     L = []
     L.append("(* GENERATED by tools/extract_tables.py from %s — do not edit. *)" % SRC)
@@ -496,6 +604,13 @@ def generate():
     L.append("Definition derive_table : list (string * list string) :=\n  [ " + ";\n    ".join(rows) + " ].")
     rows = ["(%s, %s)" % (coq_str(t), coq_str(ty)) for t, ty in manual]
     L.append("Definition manual_impl_table : list (string * string) :=\n  [ " + ";\n    ".join(rows) + " ].")
+    L.append("")
+    L.append("(* attribute names matched by each attribute-list parser: (name, treatment of the value, fallible) *)")
+    L.append("Definition attr_section_ok : bool := %s." % ("false" if "attrs" in failed else "true"))
+    rows = ["(%s, [%s])" % (coq_str(ty), "; ".join("(%s, %s, %s)" % (coq_str(a), coq_str(b), "true" if c else "false") for a, b, c in arms)) for ty, arms in attrP]
+    L.append("Definition parser_attr_table : list (string * list (string * string * bool)) :=\n  [ " + ";\n    ".join(rows) + " ].")
+    rows = ["(%s, [%s])" % (coq_str(ty), "; ".join("(%s, %s)" % (coq_str(a), coq_str(b)) for a, b in d)) for ty, d in attrD]
+    L.append("Definition display_attr_table : list (string * list (string * string)) :=\n  [ " + ";\n    ".join(rows) + " ].")
     L.append("")
     info = {
         "prefixes": pf, "dispatch": [[t, v] for t, v in disp], "missing_uri": missing,
